@@ -85,25 +85,19 @@ impl Writer {
                 need,
                 block.limit
             );
-            // Get the new block first: once the current block is sealed it is published to
-            // the readers, and a writer that then fails to switch (allocation error, failed
-            // flush) would keep appending into a block readers treat as immutable.
+            // Flush and get the new block *before* the current block is sealed: sealing
+            // publishes it to the readers, and a writer that then fails to switch would keep
+            // appending into a block readers treat as immutable. Both steps can fail without
+            // having changed anything.
+            let mut sealed = block.clone();
+            sealed.used = *cur;
+            #[cfg(walrus_verif)]
+            crate::wal::verif::io_gate("flush", &sealed.file_path, "")?;
+            sealed.mmap.flush()?;
             // SAFETY: We hold `current_block` and `current_offset` mutexes, so
             // this writer has exclusive ownership of the active block. The
             // allocator's internal lock ensures unique block handout.
             let new_block = unsafe { self.allocator.alloc_block(need) }?;
-            let mut sealed = block.clone();
-            sealed.used = *cur;
-            let flushed = (|| -> std::io::Result<()> {
-                #[cfg(walrus_verif)]
-                crate::wal::verif::io_gate("flush", &sealed.file_path, "")?;
-                sealed.mmap.flush()
-            })();
-            if let Err(e) = flushed {
-                // stay on the current block; the block just allocated is given up (empty)
-                FileStateTracker::set_block_unlocked(self.allocator.ns(), new_block.id as usize);
-                return Err(e);
-            }
             FileStateTracker::set_block_unlocked(self.allocator.ns(), block.id as usize);
             let _ = self.reader.append_block_to_chain(&self.col, sealed);
             debug_print!("[writer] appended sealed block to chain: col={}", self.col);
